@@ -114,6 +114,12 @@ var ruleModeGuard = &Rule{
 					if p.pairKind(sc.Signature) == "" && lastIsError(sc.Signature) {
 						add(sc)
 					}
+					// a helper with the executors' result pair that is handed no
+					// context evaluates nothing: it only words the outcome
+					// (`exec.structuralError("…")`)
+					if p.pairKind(sc.Signature) == "status" && !takesContext(sc) {
+						add(sc)
+					}
 				}
 			}
 		}
@@ -209,6 +215,7 @@ var ruleModeGuard = &Rule{
 		})
 		ord := ordinals{}
 		nguard := 0
+		flagHelpers := map[*ssa.Function]bool{} // helpers that raise only where the flag is off
 		for _, s := range srcs {
 			key := fmt.Sprintf("%s: suppressible error #%d", fnName(s.Fn), ord.next(fnName(s.Fn)))
 			if why, ok := modeGuardExceptions[fnName(s.Fn)]; ok {
@@ -226,6 +233,14 @@ var ruleModeGuard = &Rule{
 				if u, ok := f.Cond.(*ssa.UnOp); ok && u.Op == token.MUL && !f.Truth {
 					if fld, _ := p.execFieldOf(u.X); fld == ignore {
 						guard = "only where structural errors are not ignored (" + ignore.Name() + " == false)"
+						byFlagSeen = true
+					}
+				}
+				// the same test under a name (`exec.raiseStructuralErrors()`
+				// returning !exec.ignoreStructuralErrors)
+				if c, ok := f.Cond.(*ssa.Call); ok {
+					if pol, isFlag := p.flagPredicate(c.Call.StaticCallee(), ignore); isFlag && f.Truth == pol {
+						guard = "only where " + c.Call.StaticCallee().Name() + "() says structural errors are not ignored"
 						byFlagSeen = true
 					}
 				}
@@ -256,8 +271,48 @@ var ruleModeGuard = &Rule{
 			if guard != "" {
 				nguard++
 				out.ok(key, p.pos(s.Instr.Pos()), fnName(s.Fn), guard)
+				if byFlag && targets[s.Fn] == "" {
+					flagHelpers[s.Fn] = true
+				}
 			} else {
 				out.viol(key, p.pos(s.Instr.Pos()), fnName(s.Fn), "a structural error is raised regardless of the mode: lax paths built from accessors must never fail ("+s.Text+")")
+			}
+		}
+		// a helper that raises only where the flag is off (`exec.structuralError(
+		// "…")`) is for member accessors: the subscript accessor must fail on
+		// a value that is not an array below `.**` too
+		var tfs []*ssa.Function
+		for fn := range targets {
+			tfs = append(tfs, fn)
+		}
+		// (a helper of the subscript executor's own, such as the one that
+		// raises the out-of-range error behind the flag, is not meant: only
+		// one the member accessors raise through as well)
+		memberHelper := func(h *ssa.Function) bool {
+			for fn, kind := range targets {
+				if kind != "KeyNode" && kind != "ConstAnyKey" {
+					continue
+				}
+				for _, c := range p.allCalls(fn) {
+					if c.Call.StaticCallee() == h {
+						return true
+					}
+				}
+			}
+			return false
+		}
+		sort.Slice(tfs, func(i, j int) bool { return tfs[i].String() < tfs[j].String() })
+		for _, fn := range tfs {
+			if targets[fn] != "ArrayIndexNode" {
+				continue
+			}
+			n := 0
+			for _, c := range p.allCalls(fn) {
+				if sc := c.Call.StaticCallee(); sc != nil && flagHelpers[sc] && memberHelper(sc) {
+					n++
+					out.viol(fmt.Sprintf("%s: structural error raised through %s #%d", fnName(fn), sc.Name(), n), p.pos(c.Pos()), fnName(fn),
+						"the subscript accessor raises its wrong-kind error through a helper that answers `not found` where "+ignore.Name()+" is on, so below `.**` a strict path silently skips values that are not arrays: only member accessors may skip there")
+				}
 			}
 		}
 		// the converse: an error of the non-suppressible class raised only where
@@ -272,6 +327,11 @@ var ruleModeGuard = &Rule{
 			for _, f := range factsAt(s.Instr.Block()) {
 				if u, ok := f.Cond.(*ssa.UnOp); ok && u.Op == token.MUL && !f.Truth {
 					if fld, _ := p.execFieldOf(u.X); fld == ignore {
+						structural = true
+					}
+				}
+				if c, ok := f.Cond.(*ssa.Call); ok {
+					if pol, isFlag := p.flagPredicate(c.Call.StaticCallee(), ignore); isFlag && f.Truth == pol {
 						structural = true
 					}
 				}
@@ -518,6 +578,45 @@ var ruleOneLevel = &Rule{
 				}
 			}
 		}
+		// a helper that applies the node it is handed to the elements itself,
+		// with the flag hard-coded false (`executeItemUnwrapTargetArray` with a
+		// loop of its own): a step that hands it its own node re-applies it
+		// without a second unwrap
+		dNode := -1
+		for i, q := range disp.Params {
+			if types.Identical(q.Type(), types.Type(p.A.Node)) {
+				dNode = i
+			}
+		}
+		for _, h := range p.execFuncs() {
+			if isApp[h] || h == disp || dNode < 0 {
+				continue
+			}
+			var hq *ssa.Parameter
+			fixed := true
+			for _, c := range callsTo(h, disp) {
+				q, ok := c.Call.Args[dNode].(*ssa.Parameter)
+				if !ok || q.Parent() != h {
+					continue
+				}
+				hq = q
+				if !isConstBool(c.Call.Args[dIdx], false) {
+					fixed = false
+				}
+			}
+			if hq == nil || !fixed {
+				continue
+			}
+			for _, caller := range p.execFuncs() {
+				for _, c := range callsTo(caller, h) {
+					if pi := paramIndex(hq); pi < len(c.Call.Args) && p.ownNodeParam(c.Call.Args[pi], 0) != nil {
+						n++
+						out.ok(fmt.Sprintf("%s re-applies its own node through %s #%d", fnName(caller), h.Name(), ord.next(fnName(caller))), p.pos(c.Pos()), fnName(caller),
+							"the helper hands the dispatcher the constant false: elements are not unwrapped again")
+					}
+				}
+			}
+		}
 		out.Counts["own_node_reapplications"] = n
 		out.Floors["own_node_reapplications"] = 2
 		out.Counts["next_node_applications"] = nnext
@@ -535,3 +634,30 @@ func isConstBool(v ssa.Value, want bool) bool {
 }
 
 func init() { register(ruleOneLevel) }
+
+// flagPredicate: g is a method of the Executor without further parameters
+// whose only return is the structural-error flag or its negation. pol is the
+// answer that means "structural errors are reported" (the flag is off).
+func (p *Prog) flagPredicate(g *ssa.Function, ignore *types.Var) (pol bool, ok bool) {
+	if g == nil || g.Blocks == nil || len(g.Blocks) != 1 || !isMethodOfExecutor(p, g) || len(g.Params) != 1 || g.Signature.Results().Len() != 1 {
+		return false, false
+	}
+	ret, isRet := g.Blocks[0].Instrs[len(g.Blocks[0].Instrs)-1].(*ssa.Return)
+	if !isRet || len(ret.Results) != 1 {
+		return false, false
+	}
+	v := ret.Results[0]
+	neg := false
+	if u, isU := v.(*ssa.UnOp); isU && u.Op == token.NOT {
+		neg = true
+		v = u.X
+	}
+	u, isU := v.(*ssa.UnOp)
+	if !isU || u.Op != token.MUL {
+		return false, false
+	}
+	if fld, _ := p.execFieldOf(u.X); fld != ignore {
+		return false, false
+	}
+	return neg, true
+}
